@@ -83,13 +83,25 @@ TCancelled == /\ Is("cancelled") /\ picked # None /\ Same(picked, Ev) /\ issued[
               /\ UNCHANGED <<sid, issued, no, pubs, shown, lastReset, dev, ended>>
 
 (* C13/C08: the published result is the sequential filter of exactly the snapshot the request carried *)
-(* Deviation StaleChunkCache (finding F17): after an exclusion the coordinator clears the chunk cache, but an older   *)
-(* request that is served afterwards refills it, and the request carrying the exclusion is then answered from those  *)
-(* entries: the result is that of the previous exclusion generation.                                                 *)
+(* Deviation StaleChunkCache (finding F17): when the coordinator applies an exclusion or an nth change it clears the  *)
+(* per-chunk result cache, but a request of the previous configuration that is being scanned at that moment puts its  *)
+(* entries back, and later requests are answered chunk-wise from a mix of both configurations.  pcfg (set by the       *)
+(* projection) names the configuration that was in flight across the last cache clear, if any.  A mixed result lies    *)
+(* between the intersection and the union of the two full results: Oracle["B|key|pcfg"] = <<|A /\ B|, |A \/ B|,        *)
+(* ids of the union..., -1, ids of the intersection...>> (id lists only when they are short).                           *)
+ResSize(r) == IF Len(r) = 2 /\ r[1] < 0 THEN -r[1] ELSE Len(r)
+IsIds(r) == ~(Len(r) = 2 /\ r[1] < 0)
+Mixed(res, key, pc) ==
+    LET b == Oracle["B|" \o key \o "|" \o ToString(pc)]
+        cut == CHOOSE i \in 3..Len(b) : b[i] = -1
+        uni == {b[i] : i \in 3..(cut - 1)}
+        int == {b[i] : i \in (cut + 1)..Len(b)}
+    IN /\ ResSize(res) >= b[1] /\ ResSize(res) <= b[2]
+       /\ (IsIds(res) /\ b[2] <= 200) => (\A i \in 1..Len(res) : res[i] \in uni) /\ (\A x \in int : \E i \in 1..Len(res) : res[i] = x)
 TPublish == /\ Is("publish") /\ picked # None /\ Same(picked, Ev)
             /\ \/ Ev.res = Oracle[Key(sid, Ev.q, Ev.count, Ev.sort, picked.cfg)] /\ dev' = dev
                \/ /\ Ev.res # Oracle[Key(sid, Ev.q, Ev.count, Ev.sort, picked.cfg)] /\ picked.pcfg >= 0
-                  /\ Ev.res = Oracle[Key(sid, Ev.q, Ev.count, Ev.sort, picked.pcfg)]
+                  /\ Mixed(Ev.res, Key(sid, Ev.q, Ev.count, Ev.sort, picked.cfg), picked.pcfg)
                   /\ dev' = dev \cup {"StaleChunkCache"}
             /\ pubs' = Append(pubs, [q |-> Ev.q, count |-> Ev.count, final |-> Ev.final, sort |-> Ev.sort, rev |-> Ev.rev, res |-> Ev.res, no |-> picked.no])
             /\ picked' = None
